@@ -76,7 +76,9 @@ fn main() {
             "C03" => print_replay(&id, props::c03::replay(&name, &path)),
             "C04" => print_replay(&id, props::c04::replay(&name, &path)),
             "C05" => print_replay(&id, props::c05::replay(&name, &path)),
+            "C06" => print_replay(&id, props::c06::replay(&name, &path)),
             "C07" => print_replay(&id, props::c07::replay(&name, &path)),
+            "C08" => print_replay(&id, props::c08::replay(&name, &path)),
             "C11" => print_replay(&id, props::c11::replay(&name, &path)),
             "C12" => print_replay(&id, props::c12::replay(&name, &path)),
             "C13" => print_replay(&id, props::c13::replay(&name, &path)),
@@ -91,7 +93,9 @@ fn main() {
             "C03" => props::c03::check(&tier),
             "C04" => props::c04::check(&tier),
             "C05" => props::c05::check(&tier),
+            "C06" => props::c06::check(&tier),
             "C07" => props::c07::check(&tier),
+            "C08" => props::c08::check(&tier),
             "C11" => props::c11::check(&tier),
             "C12" => props::c12::check(&tier),
             "C13" => props::c13::check(&tier),
